@@ -90,8 +90,21 @@ def setLog (log : List (Nat × List Entry)) (id : Nat) (es : List Entry) : List 
 
 /-- the quorum is declared: `pacemaker.AdvanceView(voteQC)` and `qcTree.updateHighQC(id)` -/
 def declare (s : State) (nd : Node) (dview : Int) : State :=
-  { s with view := if s.view < dview + 1 then dview + 1 else s.view,
+  { s with view := max s.view (dview + 1),
            high := if nd.view < s.high.view then s.high else nd }
+
+/-- The storing half of `handleReceivedVoteMsg`: the verified vote `e` for proposal `id` (node `nd` of the
+local tree) is appended to the vote log unless its address is already there; the length of the log is
+compared with the threshold of the view's validator set (`n` members).  The flag tells whether the
+quorum was declared. -/
+def collectVote (n : Nat) (s : State) (id : Nat) (dview : Int) (e : Entry) (nd : Node) : State × Bool :=
+  let signs := (logOf s.log id).getD []
+  if signs.any (fun x => x.addr == e.addr) then
+    if XV.Gen.calVotesThreshold (signs.length : Int) (n : Int) then (declare s nd dview, true) else (s, false)
+  else
+    let s' := { s with log := setLog s.log id (signs ++ [e]) }
+    if XV.Gen.calVotesThreshold ((signs ++ [e]).length : Int) (n : Int) then (declare s' nd dview, true)
+    else (s', false)
 
 /-- `handleReceivedVoteMsg`.  The third component tells whether the quorum was declared. -/
 def handleVote (vals : Int → List Nat) (s : State) (m : VoteMsg) : State × Ret × Bool :=
@@ -108,41 +121,47 @@ def handleVote (vals : Int → List Nat) (s : State) (m : VoteMsg) : State × Re
         if nd.view != m.view then (s, .reject, false)                 -- VoteViewMismatch
         else if e.addr == s.self then (s, .ok, false)                 -- own vote: ignored
         else
-          let signs := (logOf s.log m.id).getD []
-          let signs' := if signs.any (fun x => x.addr == e.addr) then signs else signs ++ [e]
-          let s' := if signs.any (fun x => x.addr == e.addr) then s else { s with log := setLog s.log m.id signs' }
-          if XV.Gen.calVotesThreshold (signs'.length : Int) ((vals m.view).length : Int) then
-            (declare s' nd m.view, .ok, true)
-          else (s', .ok, false)
+          let r := collectVote (vals m.view).length s m.id m.view e nd
+          (r.1, .ok, r.2)
+
+/-- The justify part of `handleReceivedProposal`: the first justify (naming the root) is not checked; a
+justify that names a local proposal must declare that proposal's view; then `CheckProposal` against the
+validator set of that view. -/
+def justifyOk (vals : Int → List Nat) (s : State) (p : PropMsg) : Bool :=
+  if p.parent == 0 then true
+  else if (match lookup s p.parent with
+      | some nd => nd.view != p.pview                           -- the justify lies about the view of a local proposal
+      | none => false) then false
+  else if p.view < s.lastVote - 3 then false                    -- CheckProposal: TooLowProposalView
+  else if (lookup s p.parent).isNone && (p.view ≤ 0 || p.view > 6) then false   -- EmptyParentNode
+  else decide (checkProposal (vals p.pview) p.just = .accept)
+
+/-- `qcTree.updateQcStatus(node)`: store the node, then `updateHighQC(parent)` -/
+def insertNode (s : State) (p : PropMsg) : State :=
+  if (lookup s p.id).isSome then s
+  else
+    let s' := { s with nodes := s.nodes ++ [⟨p.id, p.view, p.parent⟩] }
+    match lookup s' p.parent with
+    | none => s'
+    | some nd => if nd.view < s'.high.view then s' else { s' with high := nd }
+
+/-- The part of `handleReceivedProposal` after the justify was accepted. -/
+def acceptProp (s : State) (p : PropMsg) : State :=
+  if 3 < p.view then s                                          -- ledgerState + 3 < view
+  else
+    let s := { s with view := max s.view (p.pview + 1) }
+    if !(XV.Gen.checkPacemaker p.view s.view) then s
+    else if p.view < s.lastVote - 3 then s                      -- VoteProposal
+    else if p.pview < -3 then s
+    else insertNode { s with lastVote := max s.lastVote p.view } p
 
 /-- `handleReceivedProposal` (the node's own vote for the proposal is sent to the next leader and
 leaves the state alone). -/
 def handleProp (vals : Int → List Nat) (s : State) (p : PropMsg) : State :=
-  if s.known.contains p.id then s else
-  let s := { s with known := p.id :: s.known }
-  let justOk : Bool :=
-    if p.parent == 0 then true                                  -- first justify: not checked
-    else if (match lookup s p.parent with
-        | some nd => nd.view != p.pview                         -- the justify lies about the view of a local proposal
-        | none => false) then false
-    else if p.view < s.lastVote - 3 then false                  -- CheckProposal: TooLowProposalView
-    else if (lookup s p.parent).isNone && (p.view ≤ 0 || p.view > 6) then false   -- EmptyParentNode
-    else decide (checkProposal (vals p.pview) p.just = .accept)
-  if !justOk then s
-  else if 3 < p.view then s                                     -- ledgerState + 3 < view
+  if s.known.contains p.id then s
   else
-    let s := { s with view := if s.view < p.pview + 1 then p.pview + 1 else s.view }
-    if !(XV.Gen.checkPacemaker p.view s.view) then s
-    else if p.view < s.lastVote - 3 then s                      -- VoteProposal
-    else if p.pview < -3 then s
-    else
-      let s := { s with lastVote := if s.lastVote < p.view then p.view else s.lastVote }
-      if (lookup s p.id).isSome then s                          -- updateQcStatus: already stored
-      else
-        let s := { s with nodes := s.nodes ++ [⟨p.id, p.view, p.parent⟩] }
-        match lookup s p.parent with                            -- updateHighQC(parent)
-        | none => s
-        | some nd => if nd.view < s.high.view then s else { s with high := nd }
+    let s := { s with known := p.id :: s.known }
+    if justifyOk vals s p then acceptProp s p else s
 
 /-- `GetCompleteHighQC`: the id of HighQC and the votes stored for it -/
 def cert (s : State) : Nat × List Entry := (s.high.id, (logOf s.log s.high.id).getD [])
@@ -200,5 +219,19 @@ def handleVoteAsFound (vals : Int → List Nat) (s : State) (m : VoteMsg) : Stat
           if XV.Gen.calVotesThreshold (signs'.length : Int) ((vals m.view).length : Int) then
             (declare s' nd m.view, .ok, true)
           else (s', .ok, false)
+
+/-- the justify part as found: checked against the validator set of the view the justify DECLARES,
+whatever the view of the local proposal it names -/
+def justifyOkAsFound (vals : Int → List Nat) (s : State) (p : PropMsg) : Bool :=
+  if p.parent == 0 then true
+  else if p.view < s.lastVote - 3 then false
+  else if (lookup s p.parent).isNone && (p.view ≤ 0 || p.view > 6) then false
+  else decide (checkProposal (vals p.pview) p.just = .accept)
+
+def handlePropAsFound (vals : Int → List Nat) (s : State) (p : PropMsg) : State :=
+  if s.known.contains p.id then s
+  else
+    let s := { s with known := p.id :: s.known }
+    if justifyOkAsFound vals s p then acceptProp s p else s
 
 end XV.Collect
